@@ -142,6 +142,7 @@ func runC13(c *eng.Ctx) {
 	runC13RootScope(c, next)
 	runC13Waiters(c, next)
 	runC13Reentrant(c, next)
+	runNestedCreate(c, "C13", next)
 	runJoin(c, "C13", next)
 	// (b) overlaps
 	reps := c.Pick(1, 6)
